@@ -12,6 +12,7 @@ import (
 	"os"
 	"path/filepath"
 	"sort"
+	"strconv"
 	"strings"
 
 	"github.com/0xrawsec/sod"
@@ -323,18 +324,38 @@ func runPair(w *bufio.Writer, id int, seed int64, p Profile) (diffs int) {
 		e.Step(l)
 		return append([]string{}, e.obs...)
 	}
-	obsA = append(obsA, step(ea, "create"))
-	ops = append(ops, "create")
+	staleOps := map[int]bool{}
+	staleSid := map[int]bool{} // searches derived from a stale one
+	record := func(l string) {
+		t := strings.Fields(l)
+		if len(t) >= 2 {
+			switch t[0] {
+			case "and", "or":
+				o, _ := strconv.Atoi(t[2])
+				if ea.stale(o) || staleSid[o] {
+					staleOps[len(ops)] = true
+					sid, _ := strconv.Atoi(t[1])
+					staleSid[sid] = true
+				}
+			case "collect", "one", "len", "sdel":
+				sid, _ := strconv.Atoi(t[1])
+				if ea.stale(sid) || staleSid[sid] {
+					staleOps[len(ops)] = true
+				}
+			}
+		}
+		obsA = append(obsA, step(ea, l))
+		ops = append(ops, l)
+	}
+	record("create")
 	for n := 0; n < p.MaxOps; {
 		for _, l := range ea.GenOp(r, p) {
-			obsA = append(obsA, step(ea, l))
-			ops = append(ops, l)
+			record(l)
 			n++
 		}
 	}
 	for _, l := range []string{"flushall", "control", "count", "all", "close", "reopen", "count", "all"} {
-		obsA = append(obsA, step(ea, l))
-		ops = append(ops, l)
+		record(l)
 	}
 	ea.db.Close()
 	ea.drainFlushers()
@@ -353,6 +374,11 @@ func runPair(w *bufio.Writer, id int, seed int64, p Profile) (diffs int) {
 	for i, l := range ops {
 		ob := step(eb, l)
 		na, nb := normPair(l, obsA[i]), normPair(l, ob)
+		if staleOps[i] {
+			// refining / collecting a result some of whose objects were deleted since: an error or
+			// an omission are both allowed (C20), and which one occurs depends on the path taken
+			na, nb = "-", "-"
+		}
 		if na != nb {
 			diffs++
 			fmt.Fprintf(w, "! C12 op %d %q differs between configurations: A=%q B=%q\n", i, l, na, nb)
